@@ -453,3 +453,23 @@ pub fn big_attack_specs(e: &BEntry, input: &BIn) -> Vec<AttackSpec<BIn>> {
     }
 }
 
+
+/// For C09: every BigUint catalogue program with deterministic admissible operands (0, 1, all-ones,
+/// limb boundaries 2^96-1 / 2^96 / 2^96+1, equal and adjacent pairs, carries). No seeded randomness.
+pub fn catalogue_for_structure(thorough: bool) -> Vec<(BProg, Vec<BIn>)> {
+    use rand::SeedableRng;
+    let mut rng = ChaCha8Rng::seed_from_u64(0xC09);
+    let mut out = vec![];
+    for (idx, e) in big_catalogue(thorough).into_iter().enumerate() {
+        if !thorough && !e.quick {
+            continue;
+        }
+        let mut inputs = gen_inputs(&e, idx, if thorough { 6 } else { 3 }, 0, 64, &mut rng);
+        // the exposure shape is recorded at synthesis; `eval` alone decides admissibility
+        inputs.retain(|i| e.prog.eval(i).is_some());
+        if !inputs.is_empty() {
+            out.push((e.prog, inputs));
+        }
+    }
+    out
+}
